@@ -621,6 +621,7 @@ func (cr *checkRun) searchReplay(o *Obligation, vc *VC) *replayResult {
 		for k, v := range tu {
 			pins = append(pins, v.pin(vc.paramVals[k].t))
 		}
+		pins = append(pins, factsOf(br.obs[ti])...)
 		_, panicked := br.obs[ti]["panic"]
 		if o.Kind == "safety" {
 			if !panicked {
